@@ -94,6 +94,11 @@ func (a *Act) callCommon(st *State, c *ssa.CallCommon, args []Val, fnv *Val, pos
 			return a.defaultCall(st, fnv.Fn.Origin, nil, args, resT, pos)
 		}
 	}
+	// cancelling a context has no effect on the memory the contracts talk about
+	if n, ok := types.Unalias(c.Value.Type()).(*types.Named); ok && n.Obj().Pkg() != nil && n.Obj().Pkg().Path() == "context" && n.Obj().Name() == "CancelFunc" {
+		a.vc.noteAssumed("context.CancelFunc call treated as effect-free")
+		return a.freshVal("cancel", resT)
+	}
 	return a.defaultCall(st, "dynamic call "+c.Value.Name(), nil, args, resT, pos)
 }
 
